@@ -26,9 +26,12 @@ import (
 	"crypto/sha256"
 	"encoding/binary"
 	"encoding/hex"
+	"encoding/json"
 	"fmt"
 	"hash/fnv"
+	"io/ioutil"
 	"os"
+	"os/exec"
 	"runtime/debug"
 	"sort"
 	"strings"
@@ -420,11 +423,124 @@ func reference(rep *mbt.Report, ti int, tid string, achain [][]evmutil.ATx, acct
 	rep.Count("reference_replicas")
 }
 
+type refOut struct {
+	Order   []string                     `json:"order"`
+	Commits map[string]map[string]string `json:"commits"`
+	Chains  map[string]string            `json:"chains"`
+	Queries map[string]string            `json:"queries"`
+	Final   string                       `json:"final"`
+	Err     string                       `json:"err"`
+}
+
+// isolatedReference runs in a process of its own: it commits the blocks of one behaviour continuously, answers no
+// contract-call query, and prints what the commit hook returned for every height plus the final state queries.
+func isolatedReference(path string) {
+	out := refOut{Commits: map[string]map[string]string{}, Chains: map[string]string{}}
+	defer func() {
+		b, _ := json.Marshal(out)
+		fmt.Println(string(b))
+	}()
+	traces, err := mbt.LoadTraces(path)
+	if err != nil || len(traces) == 0 {
+		out.Err = fmt.Sprint("load: ", err)
+		return
+	}
+	tr := traces[0]
+	node, err := evmutil.NewNode(10)
+	if err != nil {
+		out.Err = err.Error()
+		return
+	}
+	rep := mbt.NewReport()
+	r := &replica{rep: rep, tid: tr.ID, node: node, routines: 1, who: "isolated reference"}
+	defer func() { r.node.Close() }()
+	for _, a := range tr.Cfg["accts"].([]interface{}) {
+		r.accts = append(r.accts, mbt.Int(a))
+	}
+	for _, k := range tr.Cfg["keys"].([]interface{}) {
+		r.keys = append(r.keys, mbt.Str(k))
+	}
+	// only blocks that the behaviour commits are executed here (a block executed and then abandoned by a restart
+	// never reached this continuously running replica)
+	var next []evmutil.ATx
+	have := false
+	for _, st := range tr.Steps {
+		switch st.A {
+		case "Execute":
+			next, have = parseBlock(st.Args[0]), true
+		case "Commit":
+			if !have {
+				continue
+			}
+			have = false
+			if !r.execute(-1, next, nil) {
+				out.Err = "execute failed"
+				return
+			}
+			if !r.commit(-1) {
+				out.Err = "commit failed"
+				return
+			}
+			out.Order = append(out.Order, r.key)
+			out.Commits[r.key] = commits[r.key].vals
+			out.Chains[r.key] = r.describe()
+		case "Restart":
+			have = false
+		}
+	}
+	if qs, ok := r.stateQueries(-1); ok {
+		out.Queries = qs
+		out.Final = r.key
+	}
+}
+
+// spawnReference starts the isolated reference replica of a behaviour and seeds the comparison tables with it.
+func spawnReference(r *replica, tr mbt.Trace) error {
+	f, err := ioutil.TempFile("", "verif-evmref-*.json")
+	if err != nil {
+		return err
+	}
+	defer os.Remove(f.Name())
+	if err := json.NewEncoder(f).Encode(tr); err != nil {
+		return err
+	}
+	f.Close()
+	cmd := exec.Command(os.Args[0], "--reference", f.Name())
+	cmd.Stderr = os.Stderr
+	b, err := cmd.Output()
+	if err != nil {
+		return err
+	}
+	lines := strings.Split(strings.TrimSpace(string(b)), "\n")
+	var out refOut
+	if err := json.Unmarshal([]byte(lines[len(lines)-1]), &out); err != nil {
+		return err
+	}
+	if out.Err != "" {
+		return fmt.Errorf("%s", out.Err)
+	}
+	who := "isolated reference replica of " + tr.ID + " (own process: continuous, 1 verifier goroutine, served no query)"
+	ref := &replica{rep: r.rep, ti: r.ti, tid: r.tid, who: who}
+	for _, k := range out.Order {
+		ref.achain = append(ref.achain, nil)
+		ref.record(commits, k, out.Commits[k], -1, "Commit(isolated reference)", "")
+	}
+	if out.Final != "" {
+		ref.record(queries, out.Final, out.Queries, -1, "Query(state, isolated reference)", "Query:")
+	}
+	r.rep.Count("isolated_references")
+	return nil
+}
+
 func main() {
 	crypto.NodeInit(crypto.CryptoTypeZhongAn)
 	if len(os.Args) < 2 {
 		fmt.Fprintln(os.Stderr, "usage: evmapp traces.json")
 		os.Exit(2)
+	}
+	if os.Args[1] == "--reference" {
+		isolatedReference(os.Args[2])
+		return
 	}
 	traces, err := mbt.LoadTraces(os.Args[1])
 	if err != nil {
@@ -450,6 +566,15 @@ func main() {
 			r.keys = append(r.keys, mbt.Str(k))
 		}
 		r.gate, _ = tr.Cfg["gate"].(bool)
+		if iso, _ := tr.Cfg["isolated_reference"].(bool); iso {
+			// Process-wide state of the application package (e.g. the VM configuration) is shared by every replica of
+			// this driver process.  A replica of its own - fresh process, no query served, no restart - commits the
+			// same blocks first; everything this process computes for that chain is compared with it.
+			if err := spawnReference(r, tr); err != nil {
+				fmt.Fprintln(os.Stderr, "isolated reference:", err)
+				os.Exit(2)
+			}
+		}
 		hh := fnv.New32a()
 		hh.Write([]byte(tr.ID))
 		rsel := int(hh.Sum32() % 997)
